@@ -78,6 +78,12 @@ func NewFileCache[MetadataT any](cfg *config.Config, rootDir string, maxCacheSiz
 		getLock: func(key CacheKey) *sync.RWMutex {
 			return getLock(c.locks, key)
 		},
+		getMetadata: func(key CacheKey) (*EntryMetadata[MetadataT], bool) {
+			c.mu.RLock()
+			meta, ok := c.entriesMetadata[key]
+			c.mu.RUnlock()
+			return meta, ok
+		},
 	})
 	c.janitor.start(ctx)
 	return c
